@@ -72,13 +72,14 @@ fn vx_min(a: usize, b: usize) -> (r: usize)
 
 // A: rustdoc slice::sort_unstable_by_key: "Sorts the slice in ascending order with a key extraction function, without
 // preserving the initial order of equal elements. ... May panic if the implementation of Ord for K does not implement a
-// total order".  The result is a rearrangement of the input (same multiset of elements) whose keys ascend.  The key function
-// is called on elements of the slice only.
+// total order".  The result is a rearrangement of the input (same multiset of elements) whose keys ascend: any two
+// elements of the result have keys (values the key function returns for them) in ascending order.  The key function is
+// called on elements of the slice only.
 pub assume_specification<T, K: Ord, F: FnMut(&T) -> K> [<[T]>::sort_unstable_by_key::<K, F>] (s: &mut [T], f: F)
     requires
         forall|i: int| 0 <= i < old(s)@.len() ==> #[trigger] f.requires((&old(s)@[i],)),
     ensures
         final(s)@.to_multiset() == old(s)@.to_multiset(),
-        vstd::laws_cmp::obeys_cmp::<K>() ==> forall|i: int, j: int, ki: K, kj: K|
-            0 <= i < j < final(s)@.len() && #[trigger] f.ensures((&final(s)@[i],), ki) && #[trigger] f.ensures((&final(s)@[j],), kj)
-            ==> vstd::std_specs::cmp::OrdSpec::cmp_spec(&ki, &kj) != core::cmp::Ordering::Greater;
+        vstd::laws_cmp::obeys_cmp::<K>() ==> forall|i: int, j: int| #![trigger final(s)@[i], final(s)@[j]] 0 <= i < j < final(s)@.len() ==>
+            exists|ki: K, kj: K| #[trigger] f.ensures((&final(s)@[i],), ki) && #[trigger] f.ensures((&final(s)@[j],), kj)
+                && vstd::std_specs::cmp::OrdSpec::cmp_spec(&ki, &kj) != core::cmp::Ordering::Greater;
